@@ -21,6 +21,11 @@ use std::sync::Arc;
 pub trait Sut: Send + Sync {
     /// executes one API-level operation on behalf of the calling logical thread
     fn exec(&self, ctx: &Ctx, op: &Value) -> Value;
+    /// fills in arguments that depend on what the calling thread did before (e.g. "the id I allocated last");
+    /// called right before the `call` event is recorded
+    fn resolve(&self, _t: usize, op: &Value) -> Value {
+        op.clone()
+    }
     /// single-threaded observation at the end of the run (hooks inactive)
     fn finish(&self, _stalled: bool) -> Value {
         Value::Null
@@ -46,6 +51,7 @@ fn run_once(scn: &Value, strategy: &mut dyn Strategy, record_ops: bool) -> RunOu
         let sut = Arc::clone(&sut);
         handles.push(sched.spawn(t, move |ctx| {
             for op in ops.iter() {
+                let op = &sut.resolve(ctx.t, op);
                 let name = op["op"].as_str().unwrap_or("?").to_string();
                 ctx.call(&name, op.clone());
                 let r = sut.exec(ctx, op);
